@@ -388,7 +388,47 @@ def rule_r4(chk):
             chk.undecided("C14-R4", f"series._hp._ConstrainedHodrickPrescottFilter[system matrix T={T}]", f"construction not evaluable: {type(ex).__name__}: {ex}", m.rel)
 
 
+def rule_r5(chk, rid="C14-R5"):
+    chk.rule(rid, "the filter range encompasses the data, the constraints and the requested span whatever order their periods come in: "
+             "dates.get_encompassing_span returns the earliest start and the latest end over series-like arguments (start_date / end_date), "
+             "plain tuples of periods (forward, backward, unsorted, with None entries) and None arguments - evaluated finitely", floor=1, shape_independent=True)
+    from .. import fin
+    m = chk.repo.mod("irispie.dates")
+    f = m.func("get_encompassing_span")
+    g = m.func("_get_period") if m.has("_get_period") else None
+    chk.saw(m, "get_encompassing_span")
+    funcs = {"Span": lambda a, b, *c: ("span", a, b)}
+    if g is not None:
+        chk.saw(m, "_get_period")
+        funcs["_get_period"] = lambda *a: fin.run_function(g, dict(zip(params(g), a)), funcs)
+    ser = lambda a, b: fin.FinObj(start_date=a, end_date=b)
+    cases = (
+        ("series and forward tuple", (ser(10, 20), (15, 16, 25)), (10, 25)),
+        ("backward tuple beyond the data", (ser(10, 20), (30, 29, 28, 5)), (5, 30)),
+        ("unsorted tuple", (ser(10, 20), None, (12, 40, 3, 18)), (3, 40)),
+        ("tuple with None entries", (ser(10, 20), (None, 22, None, 8)), (8, 22)),
+        ("empty series", (ser(None, None), (7, 9)), (7, 9)),
+        ("two series", (ser(10, 20), ser(5, 12), None), (5, 20)),
+    )
+    bad = None
+    n = 0
+    try:
+        for label, args, (ws, we) in cases:
+            got = fin.run_function(f, {f.args.vararg.arg: args} if f.args.vararg else dict(zip(params(f), args)), funcs)
+            n += 1
+            got = tuple(got)
+            if got[1:] != (ws, we) or got[0] != ("span", ws, we):
+                bad = f"{label}: get_encompassing_span{tuple('series(%s..%s)' % (a.start_date, a.end_date) if isinstance(a, fin.FinObj) else a for a in args)} " \
+                      f"gives {got[1]}..{got[2]}, but the periods run from {ws} to {we}: the filter range does not cover the request"
+                break
+    except (fin.NotFinite, fin.Raised, TypeError, ValueError, IndexError) as ex:
+        chk.undecided(rid, "dates.get_encompassing_span", f"not finitely evaluable: {type(ex).__name__}: {ex}", m.loc(f))
+    else:
+        chk.ob(rid, "dates.get_encompassing_span", bad is None, bad or f"{n} argument mixes: earliest start and latest end, independent of the order of the periods", m.loc(f), sure=True)
+
+
 def run(chk):
+    chk.guard(rule_r5, chk)
     chk.guard(rule_r1, chk)
     chk.guard(rule_r2, chk)
     chk.guard(rule_r3, chk)
